@@ -53,10 +53,13 @@ def p12Loop (password : Bytes) : Bool → List Bytes → Nat × Bool
     else if a = password then (1, true)
     else let (n, r) := p12Loop password triedEmpty rest; (n + 1, r)
 
-/-- `certloader.ParseAnyPrivateKey`: (GetPasswd calls, outcome); `ok signer` = a key, and whether it implements crypto.Signer -/
-def parseAny (c : Content) (g : Getter) : Nat × Out Bool :=
+/-- `certloader.ParseAnyPrivateKey`: (GetPasswd calls, outcome); `ok signer` = a key, and whether it implements crypto.Signer.
+    `fx = true`: the code as it is (commit 3202f4d); `fx = false`: the code before it (findings F-FILE-1, F-FILE-2). -/
+def parseAnyWith (fx : Bool) (c : Content) (g : Getter) : Nat × Out Bool :=
   match c with
-  | .empty => (0, .panic "certloader.ParseAnyPrivateKey:blob[0]")          -- `blob[0] == asn1Magic` on an empty slice
+  | .empty =>
+    if fx then (0, .fail (.msg "format"))                                     -- `len(blob) == 0` → "unrecognized private key format"
+    else (0, .panic "certloader.ParseAnyPrivateKey:blob[0]")                  -- `blob[0] == asn1Magic` on an empty slice
   | .junk => (0, .fail (.msg "format"))
   | .der parses => (0, if parses then .ok true else .fail (.msg "parse"))
   | .p12 _ _ => (0, .fail (.msg "parse"))                                     -- a PKCS#12 blob without ispkcs12: DER that is no key
@@ -74,19 +77,23 @@ def parseAny (c : Content) (g : Getter) : Nat × Out Bool :=
     else if !hasPriv then (0, .fail (.msg "nopriv"))
     else if !encrypted then (0, .ok signer)
     else match g with
-      | none => (0, .panic "certloader.parsePgpPrivateKey:prompt.GetPasswd (nil prompt)")   -- NO nil check in this branch
+      | none =>
+        if fx then (0, .fail (.msg "noprompt"))                               -- the same check as in the PEM branch
+        else (0, .panic "certloader.parsePgpPrivateKey:prompt.GetPasswd (nil prompt)")
       | some answers =>
         match askLoop password answers with
         | (n, true) => (n, .ok signer)
         | (n, false) => (n, .fail (.msg "aborted"))
 
-/-- `filetoken.GetKey` -/
-def getKey (k : KeyConf) (g : Getter) : Nat × Out Unit :=
+/-- `filetoken.GetKey` (with `certloader.ParsePKCS12` for `ispkcs12` keys) -/
+def getKeyWith (fx : Bool) (k : KeyConf) (g : Getter) : Nat × Out Unit :=
   if !k.keyFile then (0, .fail (.msg "nokeyfile"))
   else if !k.exists_ then (0, .fail (.msg "read"))
   else if k.isPkcs12 then
     match g with
-    | none => (0, .panic "certloader.ParsePKCS12:prompt.GetPasswd (nil prompt)")             -- the loop starts with prompt.GetPasswd
+    | none =>
+      if fx then (0, .fail (.msg "p12noprompt"))                              -- checked BEFORE the first attempt
+      else (0, .panic "certloader.ParsePKCS12:prompt.GetPasswd (nil prompt)") -- the loop starts with prompt.GetPasswd
     | some answers =>
       match k.content with
       | .p12 valid password =>
@@ -94,12 +101,22 @@ def getKey (k : KeyConf) (g : Getter) : Nat × Out Unit :=
         else match p12Loop password false answers with
           | (n, true) => (n, .ok ())
           | (n, false) => (n, .fail (.msg "aborted"))
-      | _ => (1, .fail (.msg "parse"))                                                     -- DecodeChain rejects anything else at the first try
+      | _ => (1, .fail (.msg "parse"))                                        -- DecodeChain rejects anything else at the first try
   else
-    match parseAny k.content g with
-    | (n, .ok signer) => (n, if signer then .ok () else .panic "filetoken.GetKey:privateKey.(crypto.Signer)")
+    match parseAnyWith fx k.content g with
+    | (n, .ok signer) =>
+      (n, if signer then .ok ()
+          else if fx then .fail (.msg "notsigner")                            -- `signer, ok := privateKey.(crypto.Signer)`
+          else .panic "filetoken.GetKey:privateKey.(crypto.Signer)")
     | (n, .fail e) => (n, .fail e)
     | (n, .panic s) => (n, .panic s)
     | (n, .block) => (n, .block)
+
+/-- the code as it is -/
+def parseAny (c : Content) (g : Getter) : Nat × Out Bool := parseAnyWith true c g
+def getKey (k : KeyConf) (g : Getter) : Nat × Out Unit := getKeyWith true k g
+/-- the code before commit 3202f4d -/
+def parseAnyOrig (c : Content) (g : Getter) : Nat × Out Bool := parseAnyWith false c g
+def getKeyOrig (k : KeyConf) (g : Getter) : Nat × Out Unit := getKeyWith false k g
 
 end Relic.FileToken
